@@ -29,9 +29,9 @@ RULE = ("kind q: histories of add (with re-adds)/remove/pop/peek/len over 2..40 
         ">= 2 sub-lists at some point; (b) = >= 2 sub-lists and a pop and an insert at the end. "
         "Distinct = distinct canonical case hash")
 ASSUMPTIONS = ["tasks are hashable with lawful __eq__/__hash__ (tokens mapped to pairwise unequal Python objects; a token is passed as the identical object or as an equal copy)",
-               "priorities are finite numbers or None (no NaN, nothing float() rejects); ranks r stand for r/2 and are passed as "
+               "accepted priorities are finite numbers or None (no NaN); priorities the key REJECTS (str, tuple, list, object, 10**400, None/negatives for a picky custom key) are exercised as error paths: add must raise what the key raises and change nothing; ranks r stand for r/2 and are passed as "
                "int / float / Fraction / bool / None / omitted argument, the extreme ranks of a case also as -inf / +inf",
-               "default priority_key; the default given to pop/peek is any object (also a queued task, also the head) except the private _REMOVED sentinel",
+               "default priority_key or a custom one given at construction that is strictly monotone where it does not raise (modelled through the order it induces); the default given to pop/peek is any object (also a queued task, also the head) except the private _REMOVED sentinel",
                "CPython dict preserves insertion order; heapq and bisect.insort meet their documented contracts"]
 TRUSTED = ["Model/C10_Model.v is hand-written; tied to boltons.queueutils / boltons.listutils.BarrelList by the correspondence run",
            "heapq is modelled as the algorithm of Lib/heapq.py (heappush/heappop, _siftdown/_siftup), which _heapq.c is trusted to implement; bisect.insort_right as binary search + insert",
@@ -148,10 +148,15 @@ def _gen_q(rng, tier):
     nops = rng.randint(1, rng.choice([12, 40, 70] if not long else [40, 120, 220]))
     style = rng.choice(["mixed", "grow_drain", "remove_heavy", "descending", "readd"])
     ops, best = [], {}
-    lo = rng.choice([0, -2, -5])
+    key = rng.choice([None] * 7 + ["scaled", "min", "picky"])
+    lo = rng.choice([0, -2, -5]) if key != "picky" else 0
+
+    def bad_kind():
+        return rng.choice(["str", "tuple", "list", "huge", "obj", "bytes", "unhashable"]
+                          + (["none", "neg", "none"] if key == "picky" else []))
 
     def rank():
-        if rng.random() < 0.12:
+        if rng.random() < 0.12 and key != "picky":
             return None
         return lo + rng.randrange(nprio)
     for j in range(nops):
@@ -167,7 +172,12 @@ def _gen_q(rng, tier):
             w = (0.8, 0.85, 0.93, 0.98) if not phase2 else (0.05, 0.1, 0.9, 0.96)
         else:
             w = (0.45, 0.62, 0.82, 0.93)
-        if r < w[0]:
+        if r < w[0] and rng.random() < 0.1:
+            # a priority the key rejects, for a fresh or a live task: add raises, nothing may change
+            ops.append(["addbad", rng.randrange(ntasks), bad_kind(), int(rng.random() < 0.3)])
+            if rng.random() < 0.6:
+                ops.append(["len"])
+        elif r < w[0]:
             if ops and ops[-1][0] == "add":
                 best[ops[-1][1]] = ops[-1][2] or 0
             if style == "descending" and not phase2:
@@ -194,6 +204,12 @@ def _gen_q(rng, tier):
         dd = rng.choice([1, 1, ["t", rng.randrange(ntasks)]])      # also drain with a default that is a task
         ops += [["pop", dd, 0] for _ in range(min(nadd, ntasks) + 1)] + [["len"]]
     case = {"kind": "q", "factor": factor, "ops": ops}
+    if key:
+        case["key"] = key
+        if key == "picky":
+            for op in ops:                      # the descending style produces negative ranks: shift them up
+                if op[0] == "add" and op[2] is not None and op[2] < 0:
+                    op[2] += 2000
     if rng.random() < 0.15:
         case["inf"] = True             # the extreme ranks of this case are spelled -inf / +inf
     return case
@@ -300,6 +316,8 @@ def _gen_steady(rng, tier):
             nxt += 1
         else:
             ops.append(["peek", 1, 1])
+        if rng.random() < 0.03:
+            ops.append(["addbad", rng.randrange(nxt), rng.choice(["str", "tuple", "huge"]), 0])
         if rng.random() < 0.02:
             ops.append(["len"])
     ops.append(["len"])
@@ -465,8 +483,31 @@ def _limit_steps(BarrelList, factor, upto):
 _EXC = (KeyError, IndexError)
 
 
+def _picky(p):
+    """a custom priority_key that raises for some priorities (None, negatives)"""
+    if p is None:
+        raise ValueError("priority required")
+    if p < 0:
+        return 1 / 0
+    return -float(p)
+
+
+# custom priority_key functions (each strictly monotone where it does not raise) and how a rank r must be
+# spelled so that the induced order is the rank order: default / scaled: value r/2; min: value -r/2
+KEYFN = {None: lambda p: -float(p or 0),            # the documented default, used here only to learn what it raises
+         "scaled": lambda p: -3.0 * float(p or 0) - 7.0,
+         "min": lambda p: float(p or 0),
+         "picky": _picky}
+
+BAD = {"str": "urgent", "tuple": (1, 2), "list": [3], "huge": 10 ** 400, "obj": object(), "bytes": b"7x",
+       "none": None, "neg": -1.5}         # the last two are rejected by the picky key only
+
+EXN_COQ = {"ValueError": "ValueError", "TypeError": "TypeError", "KeyError": "KeyError", "IndexError": "IndexError",
+           "OverflowError": "(OtherExn 10)", "ZeroDivisionError": "(OtherExn 11)"}
+
+
 def _extremes(case):
-    if not case.get("inf"):
+    if not case.get("inf") or case.get("key"):
         return None
     rs = [op[2] for op in case["ops"] if op[0] == "add" and op[2] is not None]
     if not rs or min(rs) >= 0 or max(rs) <= 0:
@@ -475,13 +516,29 @@ def _extremes(case):
 
 
 def _run_queue(cls, case, inv):
-    q = cls()
+    key = case.get("key")
+    q = cls(priority_key=KEYFN[key]) if key else cls()
     ext = _extremes(case)
     out, maxsub = [], 1
     for op in case["ops"]:
         try:
+            if op[0] == "addbad":
+                # the priority key rejects this priority: add must raise exactly what the key raises
+                t = task_copy(op[1]) if op[3] else task(op[1])
+                try:
+                    if op[2] == "unhashable":
+                        r = q.add([op[1]], 1)          # a task that cannot be hashed: TypeError, nothing changes
+                    else:
+                        r = q.add(t, BAD[op[2]])
+                    out.append(["none"])
+                except Exception as e:      # whatever the key raised; compared in Coq with the key's own exception
+                    out.append(["err", type(e).__name__])
+                continue
             if op[0] == "add":
-                p = prio_obj(op[2], op[3], ext)
+                rank = op[2]
+                if key == "min" and rank is not None:
+                    rank = -rank
+                p = prio_obj(rank, op[3], ext)
                 t = task_copy(op[1]) if len(op) > 4 and op[4] else task(op[1])
                 if op[2] is None and op[3] % 2:
                     r = q.add(t)
@@ -574,14 +631,27 @@ def run_impl(case):
             from boltons.queueutils import HeapPriorityQueue, SortedPriorityQueue
             inv = {}
             for op in case["ops"]:
-                if op[0] in ("add", "remove"):
+                if op[0] in ("add", "remove", "addbad"):
                     inv[task(op[1])] = op[1]
                 elif op[0] in ("pop", "peek") and isinstance(op[1], list):
                     inv[task(op[1][1])] = op[1][1]
             nadd = sum(1 for op in case["ops"] if op[0] == "add")
             heap, _ = _run_queue(HeapPriorityQueue, case, inv)
             srt, maxsub = _run_queue(SortedPriorityQueue, case, inv)
-            return {"lim": _limit_steps(BarrelList, case["factor"], nadd + 1), "heap": heap, "sorted": srt,
+            bad = {}
+            for i, op in enumerate(case["ops"]):
+                if op[0] == "addbad":
+                    try:
+                        if op[2] == "unhashable":
+                            hash([op[1]])
+                        else:
+                            KEYFN[case.get("key")](BAD[op[2]])
+                        raise AssertionError("harness: priority %r is not rejected by key %r" % (op[2], case.get("key")))
+                    except AssertionError:
+                        raise
+                    except Exception as e:
+                        bad[str(i)] = type(e).__name__
+            return {"bad": bad, "lim": _limit_steps(BarrelList, case["factor"], nadd + 1), "heap": heap, "sorted": srt,
                     "maxsub": maxsub}
         b = BarrelList()
         out, maxsub = [], 1
@@ -622,7 +692,9 @@ def run_impl(case):
 
 
 # --------------------------------------------------------------------------
-def _qop(op):
+def _qop(op, expect=None):
+    if op[0] == "addbad":
+        return "AddBad %s %s" % (cnat(op[1]), EXN_COQ[expect])
     if op[0] == "add":
         return "Add %s %s" % (cnat(op[1]), copt(None if op[2] is None else cZ(op[2])))
     if op[0] == "remove":
@@ -643,7 +715,7 @@ def _qobs(o):
         return "ODefault %s" % cnat(o[1])
     if o[0] == "len":
         return "OLen %s" % cnat(o[1])
-    return "OErr %s" % o[1]          # KeyError / IndexError are constructors of Prelude.exn
+    return "OErr %s" % EXN_COQ[o[1]]  # exception type -> Prelude.exn (unknown types cannot be rendered: fail closed)
 
 
 def _bop(op):
@@ -705,7 +777,7 @@ def to_coq(case, obs):
         return "BigDiff %s %s %s" % (par, _bigobs(obs["heap"]), _bigobs(obs["sorted"]))
     lim = clist(cpair(cN(a), cN(b)) for a, b in obs["lim"])
     if case["kind"] == "q":
-        ops = clist(_qop(op) for op in case["ops"])
+        ops = clist(_qop(op, obs.get("bad", {}).get(str(i))) for i, op in enumerate(case["ops"]))
         if obs["heap"] == obs["sorted"]:
             return "QSame %s %s %s" % (lim, ops, clist(_qobs(o) for o in obs["heap"]))
         return "QDiff %s %s %s %s" % (lim, ops, clist(_qobs(o) for o in obs["heap"]),
